@@ -97,7 +97,7 @@ class RefMsg:
         return '<%s %s@%d%s.%s>' % (self.conn, self.obj[0], self.obj[1], letters.word(self.obj[2]), self.name)
 
 
-def build_universe(repo, msgs=None, dialect='cur'):
+def build_universe(repo, msgs=None, dialect='cur', equal_times=False):
     """-> (log lines, [RefMsg])"""
     top = protoxml.shipped(repo)
     msgs = UNIVERSE if msgs is None else msgs
@@ -105,7 +105,7 @@ def build_universe(repo, msgs=None, dialect='cur'):
     names = {}
     lines, views = [], []
     for n, m in enumerate(msgs):
-        m = dict(m, t_us=T0 + n * 100)
+        m = dict(m, t_us=T0 if equal_times else T0 + n * 100)
         ref = refs.setdefault(m['conn'], ot.RefConn())
         if m['conn'] not in names:
             names[m['conn']] = letters.word(len(names), caps=True)
@@ -251,10 +251,12 @@ OBJ_ATOMS = [
     ('wl_s*e', o_type('wl_s*e')),
     ('[6, [wl_* ! wl_pointer]]', lambda o: o[1] == 6 or (o[0].startswith('wl_') and o[0] != 'wl_pointer')),
     ('[[wl_surface ! 4b], 4b]', lambda o: o[0] == 'wl_surface' or o[1:] == (4, 1)),
+    ('wl_display', o_type('wl_display')),
+    ('1a', lambda o: o[1:] == (1, 0)),
 ]
 # which object atoms are "type-like" (a bare type against a typed nil is not decided by the documentation)
 TYPE_LIKE = {'wl_surface', 'wl_*', '*', 'wl_surface@', '[wl_surface, 3]', '[wl_* ! wl_surface]', 'wl_*face', '*surface',
-             'x*', 'xdg_*', '', 'wl_*fac', '*_surf', 'wl_s*e', '[6, [wl_* ! wl_pointer]]', '[[wl_surface ! 4b], 4b]'}
+             'x*', 'xdg_*', '', 'wl_*fac', '*_surf', 'wl_s*e', '[6, [wl_* ! wl_pointer]]', '[[wl_surface ! 4b], 4b]', 'wl_display'}
 
 # name atoms: (text or None when the `.name` part is absent, predicate, names the pseudo messages explicitly?)
 NAME_ATOMS = [
@@ -375,6 +377,9 @@ ARG_ATOMS = [
     ('(state=[released, [* ! released]])', argl([a_and(a_named('state'), a_word('*'))])),
     ('(time=[100, [* ! 100, 101]])', argl([a_and(a_named('time'), a_or(a_int(100), lambda a: a['kind'] == 'int' and a['value'] not in (100, 101)))])),
     ('(s*l=)', argl([lambda a: a['name'] is not None and fnmatch.fnmatchcase(a['name'], 's*l')])),
+    # more items than the message has arguments: one argument may satisfy several items
+    ('(scale=, 2)', argl([a_named('scale'), a_int(2)])),
+    ('(id=, wl_surface, surface=)', argl([a_named('id'), a_word('wl_surface'), a_named('surface')])),
 ]
 
 
@@ -437,7 +442,7 @@ def patterns(conn_atoms, obj_atoms, name_atoms, arg_atoms):
             for n in name_atoms:
                 for a in arg_atoms:
                     if n[0] is None and a[0] is None:
-                        if o[0] in ('', '*'):
+                        if o[0] in ('', '*') and c[0] in ('', '*:'):
                             continue       # the constants are handled separately
                         yield pattern_text(c, o, n, a), bare(c, o)
                         continue
